@@ -5,7 +5,7 @@
    structure, the reversal tick, the quadratic solve with both ceilings and the discarding of roots, statement by statement, with
    mpmath read as exact arithmetic) returns the specified answer for every request in the property's domain, for all integers; the
    implementation is compared with that model on every generated case. *)
-From Plotink Require Import Base.Prelude Spec.Firmware Spec.LmSpec Spec.LmCheck Model.EbbCalc Model.EbbCalcRnd Model.LmModel Model.LmModelRnd Proofs.LmProofs Proofs.LmModelProofs Proofs.LmRootRnd.
+From Plotink Require Import Base.Prelude Spec.Firmware Spec.LmSpec Spec.LmCheck Model.EbbCalc Model.EbbCalcRnd Model.LmModel Model.LmModelRnd Proofs.LmProofs Proofs.LmModelProofs Proofs.LmRootRnd Base.Rnd Proofs.RndProofs.
 Open Scope Z_scope.
 
 Theorem C03_checker_iff_spec : forall steps rate accel accum T p c,
@@ -94,6 +94,19 @@ Example C03_as_found_refuted :
   lm_check 2 2 (-1) (Some 2147483647) 0 0 2147483647 = false.
 Proof. vm_compute. repeat split; reflexivity. Qed.
 
+(* with the executable round-to-nearest-even at 103 bits for the arithmetic operations (Proofs/RndProofs.v), only the square root keeps its
+   three hypotheses *)
+Theorem C03_rounding_rne : forall sq : Q -> Q,
+  (forall x, (0 <= x)%Q -> (0 <= sq x)%Q) ->
+  (forall K n, 0 <= K < 2 ^ 103 -> 0 <= n <= 52 -> (sq ((iz K / iz (2 ^ n)) * (iz K / iz (2 ^ n))) == iz K / iz (2 ^ n))%Q) ->
+  (forall x y, (0 <= x)%Q -> (x <= y)%Q -> (sq x <= sq y)%Q) ->
+  forall steps rate accel accum, Z.abs steps <= 2 ^ 31 -> Z.abs rate <= 2 ^ 31 -> Z.abs accel <= 2 ^ 31 ->
+  match accum with None => True | Some c => 0 <= c < 2 ^ 31 end ->
+  lm_model_r (round_ne 103) sq steps rate accel accum = lm_model steps rate accel accum.
+Proof.
+  apply C03_rounding; [intros x y; apply round_ne_comp; lia|intros x R; apply round_ne_exact; [lia|exact R]|intros x y; apply round_ne_mono; lia].
+Qed.
+
 Print Assumptions C03_checker_iff_spec.
 Print Assumptions C03_model_correct.
 Print Assumptions C03_model_meets_spec.
@@ -102,3 +115,4 @@ Print Assumptions C03_root_rounding.
 Print Assumptions C03_steps_closed_form.
 Print Assumptions C03_consequence.
 Print Assumptions C03_invalid.
+Print Assumptions C03_rounding_rne.
